@@ -257,6 +257,28 @@ impl Report {
         let root = verif_root();
         let known = load_known_findings(&self.property);
         let vs = self.violations.lock().unwrap().clone();
+        // replay mode (`./check <ID> --replay <artefact>`): the check is deterministic and exhaustive, so the
+        // artefact is replayed by re-exploring and looking for the violation with the same identity
+        if let Ok(target) = std::env::var("VERIF_REPLAY_ARTEFACT") {
+            let want: Option<serde_json::Value> = std::fs::read_to_string(&target).ok().and_then(|t| serde_json::from_str(&t).ok());
+            let Some(want) = want else {
+                eprintln!("MACHINERY: cannot read replay artefact {target}");
+                return 2;
+            };
+            let same = |v: &Violation| json!(v.class) == want["class"] && json!(v.kinds) == want["kinds"] && v.replay == want["replay"];
+            return match vs.iter().find(|v| same(v)) {
+                Some(v) => {
+                    println!("REPLAY: reproduced on the current tree");
+                    println!("VIOLATION property={} replay={}", self.property, target);
+                    println!("  class={} trigger={} :: {}", v.class, v.kinds.join(","), truncate(&v.detail, 600));
+                    1
+                }
+                None => {
+                    println!("REPLAY: the violation of {target} does not occur on the current tree ({} other violating cases in this run)", vs.len());
+                    0
+                }
+            };
+        }
         let mut matched: BTreeMap<usize, (u64, Violation)> = BTreeMap::new();
         let mut unmatched: Vec<Violation> = Vec::new();
         // Group unmatched by (class, kinds) so the output stays readable.
